@@ -365,6 +365,17 @@ Theorem C01_exec_gate_tp : forall (dz : Z) (a_row a_trace : Qc) (l : list Qc),
 Proof. exact op_gate_tp_spec. Qed.
 Print Assumptions C01_exec_gate_tp.
 
+Theorem C01_exec_origin : forall (dz mz : Z) (sd : Qc),
+  let d := Z.to_nat dz in let m := Z.to_nat mz in let n := (d * d)%nat in
+  op_origin [0%Z; dz; mz] [sd] = Ok (list_of_vec n (@state_origin Qc_OF sd) ++ list_of_vec n (@state_zero Qc_OF)) /\
+  op_origin [1%Z; dz; mz] [sd] = Ok (concat (map (fun x => list_of_vec n (@povm_origin Qc_OF sd m x)) (seq 0 m))
+                                     ++ concat (map (fun x => list_of_vec n (@povm_zero Qc_OF x)) (seq 0 m))) /\
+  op_origin [2%Z; dz; mz] [sd] = Ok (flat_of_rmat n n (@gate_origin Qc_OF) ++ flat_of_rmat n n (@gate_zero Qc_OF)) /\
+  op_origin [3%Z; dz; mz] [sd] = Ok (concat (map (fun x => flat_of_rmat n n (@mprocess_origin Qc_OF m x)) (seq 0 m))
+                                     ++ concat (map (fun x => flat_of_rmat n n (@mprocess_zero Qc_OF x)) (seq 0 m))).
+Proof. exact op_origin_spec. Qed.
+Print Assumptions C01_exec_origin.
+
 Theorem C01_exec_mprocess : forall (dz mz fl en inn rq : Z) (st aeq aineq : Qc) (l : list Qc),
   let d := Z.to_nat dz in let m := Z.to_nat mz in let B := dec_basis d l in let hss := mats_of_flat (d * d) m (dec_data d l) in
   (0 < d)%nat ->
